@@ -6,6 +6,7 @@ import (
 	"go/token"
 	"go/types"
 	"sort"
+	"strconv"
 	"strings"
 )
 
@@ -223,6 +224,63 @@ type classifier struct {
 	adopted  map[types.Object]bool // (U2) buffers declared outside the body that the body resets first
 	recvObj  types.Object          // summary of a receiver-confined method: its receiver
 	tag      string                // "recv:" while an effect through an owned path of recvObj is recorded
+	argOf    map[types.Object]int  // summary: the struct-pointer parameters that are never assigned (receiver: -1)
+}
+
+// argTag: (P1) in the summary of a function, a store through a path rooted at one of its parameters
+// (receiver included) that points to a struct and is never assigned is tagged `arg<i>:`; the caller decides.
+func (c *classifier) argTag(e ast.Expr) string {
+	if !c.summary || c.argOf == nil {
+		return ""
+	}
+	id, deep := rootIdent(e)
+	if id == nil || !deep {
+		return ""
+	}
+	if i, ok := c.argOf[c.obj(id)]; ok {
+		return fmt.Sprintf("arg%d:", i)
+	}
+	return ""
+}
+
+// freshInside: e is `v` or `&v` for a fresh local v declared inside the body (one new object per element).
+func (c *classifier) freshInside(e ast.Expr) bool {
+	e = ast.Unparen(e)
+	if u, ok := e.(*ast.UnaryExpr); ok && u.Op == token.AND {
+		e = ast.Unparen(u.X)
+	}
+	id, ok := e.(*ast.Ident)
+	if !ok {
+		return false
+	}
+	o := c.obj(id)
+	return o != nil && c.declaredInside(o) && c.fresh[o]
+}
+
+// actual: the expression handed over for parameter i (-1: the receiver) of the call x.
+func actual(x *ast.CallExpr, g *fn, i int) ast.Expr {
+	if x == nil {
+		return nil
+	}
+	if i < 0 {
+		if sel, ok := ast.Unparen(x.Fun).(*ast.SelectorExpr); ok && g.decl.Recv != nil {
+			return sel.X
+		}
+		return nil
+	}
+	if g.decl.Type.Params != nil && g.decl.Type.Params.NumFields() == len(x.Args) && i < len(x.Args) && !x.Ellipsis.IsValid() {
+		n := 0
+		for _, fl := range g.decl.Type.Params.List {
+			if _, variadic := fl.Type.(*ast.Ellipsis); variadic && n <= i {
+				if n+max(len(fl.Names), 1) > i {
+					return nil
+				}
+			}
+			n += max(len(fl.Names), 1)
+		}
+		return x.Args[i]
+	}
+	return nil
 }
 
 func (c *classifier) eff(s string) { c.effects[c.tag+s] = true }
@@ -384,11 +442,11 @@ func (c *classifier) call(x *ast.CallExpr, stmt bool) {
 				}
 			}
 		}
-		c.callInternal(g, c.recvMode(x, g))
+		c.callInternal(g, c.recvMode(x, g), x)
 	case "iface":
 		for _, g := range c.a.fns {
 			if g.decl.Recv != nil && g.decl.Name.Name == o.Name() {
-				c.callInternal(g, "")
+				c.callInternal(g, "", nil)
 			}
 		}
 	case "external":
@@ -447,7 +505,7 @@ func (c *classifier) call(x *ast.CallExpr, stmt bool) {
 // mode: "local" the call is `v.m(…)` on a call-local object of the body and m is receiver-confined
 // (what m does to its receiver is no effect), "recv" the same on the receiver of the confined
 // method that is being summarised (stays tagged), "" anything else.
-func (c *classifier) callInternal(g *fn, mode string) {
+func (c *classifier) callInternal(g *fn, mode string, x *ast.CallExpr) {
 	if !g.impure || c.a.pureOK[g.qname()] {
 		return
 	}
@@ -466,9 +524,28 @@ func (c *classifier) callInternal(g *fn, mode string) {
 			case "recv":
 				c.effects[e] = true
 			default:
+				if c.freshInside(actual(x, g, -1)) {
+					continue // (P2) the receiver is a new object of this element
+				}
 				c.eff(strings.TrimPrefix(e, "recv:"))
 			}
 			continue
+		}
+		if strings.HasPrefix(e, "arg") {
+			if k := strings.Index(e, ":"); k > 3 {
+				if i, err := strconv.Atoi(e[3:k]); err == nil {
+					rest, act := e[k+1:], actual(x, g, i)
+					switch {
+					case act != nil && c.freshInside(act):
+						// (P2) stores through a parameter that stands for a new object of this element
+					case act != nil && c.argTag(&ast.StarExpr{X: act}) != "":
+						c.effects[c.argTag(&ast.StarExpr{X: act})+rest] = true // handed on: the caller's caller decides
+					default:
+						c.eff(rest)
+					}
+					continue
+				}
+			}
 		}
 		c.eff(e)
 	}
@@ -535,6 +612,28 @@ func (a *analyzer) summaryOf(g *fn) []string {
 	c.fresh = a.freshLocals(g, g.decl.Body, a.fresh)
 	c.local = a.callLocals(g)
 	c.recvObj = a.recvObj[g] // nil unless g is receiver-confined
+	c.argOf = map[types.Object]int{}
+	ptrStruct := func(o types.Object) bool {
+		if o == nil || len(a.indexFn(g).defs[o]) != 0 {
+			return false
+		}
+		p, ok := o.Type().Underlying().(*types.Pointer)
+		if !ok {
+			return false
+		}
+		_, ok = p.Elem().Underlying().(*types.Struct)
+		return ok
+	}
+	for o, i := range a.indexFn(g).params {
+		if ptrStruct(o) {
+			c.argOf[o] = i
+		}
+	}
+	if g.decl.Recv != nil && len(g.decl.Recv.List) == 1 && len(g.decl.Recv.List[0].Names) == 1 {
+		if o := info.Defs[g.decl.Recv.List[0].Names[0]]; ptrStruct(o) {
+			c.argOf[o] = -1
+		}
+	}
 	c.block(g.decl.Body, 0)
 	var out []string
 	for e := range c.effects {
@@ -577,6 +676,8 @@ func (c *classifier) assign(s *ast.AssignStmt) {
 				continue // (U1) a store into a call-local object of the body
 			case "recv:":
 				c.tag = "recv:"
+			default:
+				c.tag = c.argTag(lhs)
 			}
 		}
 		switch l := lhs.(type) {
@@ -808,7 +909,9 @@ func (c *classifier) stmt(s ast.Stmt, depth int) {
 		}()):
 			c.eff("count")
 		default:
+			c.tag = c.argTag(x.X)
 			c.eff("fieldwrite:" + strings.Join(c.a.normExpr(c.f, x.X, 0), "|"))
+			c.tag = ""
 		}
 	case *ast.DeclStmt:
 		if gd, ok := x.Decl.(*ast.GenDecl); ok {
